@@ -75,6 +75,15 @@ CHECKS = [
              'overall (ties free); svd_/eigh_with_truncation: kept values valid, ||a-USV|| == ||discarded||, non-binding limits discard nothing.',
      'note': 'trusted: the two-stage reference selection in checks/c13_truncation.py (same floating comparisons as documented); '
              'truncate_multiplets, mask_f and which in (SM, SR) are outside the claim'},
+    {'id': 'C14',
+     'technique': 'differential execution of Hypothesis-generated programs under pairs of configurations (policy / fusion mode / lazy vs eager) and metamorphic comparison of unrolled contractions with ncon and dense einsum',
+     'text': 'Generated programs (contractions, fusions, transposes, sums, traces, masks, swap gates, at most one factorisation) run under two '
+             'environments differing only in tensordot_policy, default_fusion/force_fusion or insertion of consume_transpose()/copy(); legs, '
+             'charge, dense values, a[key] access and to_raw_tensor agree after every step (after full unfusion for fusion-mode pairs). '
+             'contract_with_unroll(_compute_constants) on 2-4 tensor networks for optimiser and random connected paths and per-sector / '
+             'uniform-size / hand-drawn intra-sector slicings of contracted and output labels equals ncon and the dense einsum exactly.',
+     'note': 'trusted: integer exactness; to_numpy as observer; random paths are restricted to connected pairs (outer-product-first paths '
+             'cannot be expressed through ncon labels); one open known finding (empty constant sub-network)'},
     {'id': 'C19',
      'technique': 'exhaustive enumeration of the group law against an independent table + Hypothesis search over Leg arguments',
      'text': 'Every fuse()/add_charges() row in the stated charge box (complete for Z2/Z3 factors, |t|<=B for U(1)) for '
